@@ -88,3 +88,13 @@ impl Splitter {
 pub fn lossy_path(p: &std::path::Path) -> std::path::PathBuf {
     p.components().collect()
 }
+
+/// C07-S8: a narrowing cast that can truncate ...
+pub fn narrow(x: u64) -> u16 {
+    x as u16
+}
+
+/// ... and one that provably cannot.
+pub fn narrow_ok(x: u64) -> u8 {
+    (x & 0xff) as u8
+}
